@@ -21,3 +21,9 @@ Record g_Reciprocal := { g_Reciprocal_divisor_normalized : Z; g_Reciprocal_shift
 (* arrays [Limb; LIMBS] are lists; `a[i] = v` *)
 From Coq Require Export List.
 Definition upd_ (l : list Z) (i : nat) (v : Z) : list Z := firstn i l ++ v :: skipn (S i) l.
+
+(* `if c { panic!(..) }` guards: the diverging branch is given the dummy value below; every theorem about a function that
+   contains one states the condition under which the guard is not taken *)
+Definition panic_ {A} (dummy : A) : A := dummy.
+Definition div_ (a b : Z) : Z := a / b.                  (* a / b, unsigned (b = 0 panics in Rust) *)
+Definition rem_ (a b : Z) : Z := a mod b.                (* a % b, unsigned *)
